@@ -84,8 +84,15 @@ def vnow() -> _dt.datetime:
 
 
 class VLoop(asyncio.SelectorEventLoop):
-    def __init__(self, max_steps: int = 2_000_000, max_vtime: float = 1e7) -> None:
+    def __init__(self, max_steps: int = 2_000_000, max_vtime: float = 1e7, jitter_seed: int | None = None) -> None:
         super().__init__()
+        # optional deterministic timer jitter (<= 40 us per timer, PRNG seeded per case): real event loops never fire two
+        # 1 ms polling loops in perfect lockstep for ever; without it some starvation patterns are artefacts of exactness
+        self._jitter = None
+        if jitter_seed is not None:
+            import random as _random
+
+            self._jitter = _random.Random(jitter_seed)
         self._vtime = 0.0
         self.steps = 0
         self.max_steps = max_steps
@@ -122,6 +129,11 @@ class VLoop(asyncio.SelectorEventLoop):
     # ---- clock
     def time(self) -> float:
         return self._vtime
+
+    def call_at(self, when: float, callback: Any, *args: Any, context: Any = None) -> Any:  # type: ignore[override]
+        if self._jitter is not None:
+            when += self._jitter.random() * 40e-6
+        return super().call_at(when, callback, *args, context=context)
 
     # ---- step counting / injection
     def _run_once(self) -> None:  # type: ignore[override]
@@ -280,11 +292,11 @@ def install() -> int:
 
 
 def run(coro_fn: Callable[..., Any], *args: Any, max_steps: int = 2_000_000, max_vtime: float = 1e7,
-        start: float = 0.0) -> Any:
+        start: float = 0.0, jitter_seed: int | None = None) -> Any:
     """Run `await coro_fn(loop, *args)` on a fresh VLoop; always tears the loop down."""
     global _current
     install()
-    loop = VLoop(max_steps=max_steps, max_vtime=max_vtime)
+    loop = VLoop(max_steps=max_steps, max_vtime=max_vtime, jitter_seed=jitter_seed)
     loop._vtime = start
     prev = _current
     _current = loop
